@@ -88,6 +88,7 @@ func main() {
 	side := flag.String("jsonl", "", "JSONL side file")
 	nTwo := flag.Int("tworun", 200, "two-run cases (mixed options)")
 	nExp := flag.Int("explicit", 60, "two-run cases with an explicit vulnerability list")
+	nPin := flag.Int("pinned", 40, "two-run cases with every vulnerable transitive package configured upgrade level none")
 	nOdd := flag.Int("odd", 20, "two-run cases with package names that need escaping in a gjson path (dots, wildcards)")
 	nCon := flag.Int("construct", 300, "synthetic ConstructPatches cases (structured)")
 	nWild := flag.Int("wild", 150, "synthetic ConstructPatches cases (duplicates, removals, odd types)")
@@ -96,7 +97,7 @@ func main() {
 	nMat := flag.Int("match", 150, "synthetic MatchVuln cases")
 	per := flag.Int("per", 100, "cases per Coq chunk")
 	replay := flag.String("replay", "", "JSON file with {universe, opts}: run the two-run protocol on it")
-	pickArg := flag.String("pick", "", "kind:index - regenerate the stream but keep only that case (kind = ccases|hcases|vcases|fcases|tcases) and print it")
+	pickArg := flag.String("pick", "", "kind:index - regenerate the stream but keep only that case (kind = ccases|hcases|vcases|fcases|tcases|gcases) and print it")
 	flag.Parse()
 
 	dir, err := os.MkdirTemp("", "c12-")
@@ -145,6 +146,7 @@ func main() {
 	kv := &kindOut{name: "vcases", ty: "vcase"}
 	kf := &kindOut{name: "fcases", ty: "fcase"}
 	kt := &kindOut{name: "tcases", ty: "tcase"}
+	kg := &kindOut{name: "gcases", ty: "gcase"}
 
 	if *replay != "" {
 		b, err := os.ReadFile(*replay)
@@ -196,29 +198,32 @@ func main() {
 		fmt.Println("coq-case: " + c.coq())
 	} else {
 		r := rand.New(rand.NewSource(*seed))
-		two := func(n int, stream string, explicit, odd bool) {
+		two := func(n int, stream string, explicit, odd, pinned bool) {
 			for i := 0; i < n; i++ {
 				sys := "npm"
 				if i%2 == 1 && !odd {
 					sys = "maven"
 				}
-				u := genUniverse(r, sys, odd)
-				o := genOpts(r, u, explicit)
+				u := genUniverse(r, sys, odd, pinned)
+				o := genOpts(r, u, explicit, pinned)
 				tr := runTwoRun(u, o, fmt.Sprintf("%s/%s%d", dir, stream, i), 4)
 				os.RemoveAll(fmt.Sprintf("%s/%s%d", dir, stream, i))
 				c := wrapTwoRun(tr, stream)
 				emit(kt, c)
 				if c.OK {
 					emit(kf, filterFromAnalysis(o, tr.A0))
+					emit(kg, graphFromAnalysis(o, tr.A0))
 					if tr.BytesChanged {
 						emit(kf, filterFromAnalysis(o, tr.A2))
+						emit(kg, graphFromAnalysis(o, tr.A2))
 					}
 				}
 			}
 		}
-		two(*nTwo, "mixed", false, false)
-		two(*nExp, "explicit", true, false)
-		two(*nOdd, "odd-names", false, true)
+		two(*nTwo, "mixed", false, false, false)
+		two(*nExp, "explicit", true, false, false)
+		two(*nOdd, "odd-names", false, true, false)
+		two(*nPin, "pinned-transitive", false, false, true)
 		for i := 0; i < *nCon; i++ {
 			emit(kc, genConstruct(r, false))
 		}
@@ -239,13 +244,13 @@ func main() {
 	if *out != "" {
 		var sb strings.Builder
 		sb.WriteString(coqHeader)
-		for _, k := range []*kindOut{kc, kh, kv, kf, kt} {
+		for _, k := range []*kindOut{kc, kh, kv, kf, kt, kg} {
 			sb.WriteString(coqfmt.Chunked(k.name, k.ty, k.items, *per))
 		}
 		if err := os.WriteFile(*out, []byte(sb.String()), 0o644); err != nil {
 			panic(err)
 		}
 	}
-	fmt.Fprintf(os.Stderr, "cases: construct=%d choose=%d vresult=%d filter=%d tworun=%d\n",
-		len(kc.items), len(kh.items), len(kv.items), len(kf.items), len(kt.items))
+	fmt.Fprintf(os.Stderr, "cases: construct=%d choose=%d vresult=%d filter=%d tworun=%d graph=%d\n",
+		len(kc.items), len(kh.items), len(kv.items), len(kf.items), len(kt.items), len(kg.items))
 }
